@@ -193,6 +193,17 @@ func checkC08(c CtlCase, o *Obs) error {
 			if !errors.As(rt.Final, &ce) || ce.Code != code || ce.Text != text {
 				return fmt.Errorf("close frame (%d,%q) received but reads ended with %v", code, text, rt.Final)
 			}
+			// the helpers applications use to classify the error agree with it
+			other := 1000
+			if code == 1000 {
+				other = 1001
+			}
+			if !websocket.IsCloseError(rt.Final, code) || websocket.IsCloseError(rt.Final, other) || !websocket.IsCloseError(rt.Final, other, code) {
+				return fmt.Errorf("IsCloseError disagrees with the CloseError returned for close code %d (%v)", code, rt.Final)
+			}
+			if websocket.IsUnexpectedCloseError(rt.Final, other, code) || !websocket.IsUnexpectedCloseError(rt.Final, other) || !websocket.IsUnexpectedCloseError(rt.Final) {
+				return fmt.Errorf("IsUnexpectedCloseError disagrees with the CloseError returned for close code %d (%v)", code, rt.Final)
+			}
 			for i, e := range rt.After {
 				var ce2 *websocket.CloseError
 				if !errors.As(e, &ce2) || ce2.Code != code || ce2.Text != text {
